@@ -19,6 +19,15 @@ RawBodies == { [t |-> "raw", s |-> "{\"q\":"], [t |-> "raw", s |-> ""] }       \
 CTs == { [absent |-> TRUE], Json, MT("application", "json", "charset=utf-8"), MT("text", "plain", ""),
          MT("application", "problem+json", "") }      \* a structured-suffix type is a media type of its own
 
+(* part "media": declared `content` keys with and without parameters, media ranges; Content-Types with declared, undeclared *)
+(* and no parameters.  The key and the header are spelled alike (Render).  Left open, not generated: no Content-Type at all  *)
+(* while */* is declared (nothing says how to decode such a body).                                                          *)
+JsonUtf8 == MT("application", "json", "charset=utf-8")
+ProblemUtf8 == MT("application", "problem+json", "charset=utf-8")
+MediaKeys == {Json, JsonUtf8, MT("application", "problem+json", ""), ProblemUtf8, MT("application", "*", ""), MT("*", "*", "")}
+MediaCTs == {[absent |-> TRUE], Json, JsonUtf8, MT("application", "json", "charset=ascii"), MT("application", "problem+json", ""), ProblemUtf8}
+MediaSets == {ds \in SUBSET MediaKeys : Cardinality(ds) >= 1 /\ Cardinality(ds) <= 3}
+
 VARIABLE case
 Init ==
    \/ \E ks \in KeySets, st \in Statuses, m \in {"GET", "HEAD"}, inc \in BOOLEAN, bk \in Keys :
@@ -68,6 +77,12 @@ Init ==
    \/ \E h \in TwoLines, mu \in BOOLEAN :
         case = [part |-> "hdr", hdrs |-> <<h>>, extra |-> FALSE, decl |-> "none", ct |-> Json, req |-> "qw", ctText |-> Render(Json),
                 body |-> O(<<"q">>, <<Num(4)>>), excludeBody |-> FALSE, excludeWO |-> FALSE, multi |-> mu]
+   \/ \E ds \in MediaSets, ct \in MediaCTs, mk \in 1..3, mu \in BOOLEAN :
+        LET decls == SetToSortSeq(ds, LAMBDA a, b : TRUE) IN
+        /\ mk <= Len(decls)
+        /\ ~("absent" \in DOMAIN ct /\ MT("*", "*", "") \in ds)
+        /\ case = [part |-> "media", decls |-> decls, keys |-> [i \in DOMAIN decls |-> Render(decls[i])], ct |-> ct,
+                   ctText |-> (IF "absent" \in DOMAIN ct THEN "" ELSE Render(ct)), mark |-> mk, multi |-> mu]
    \/ \E h \in CtHeaders, d \in {"none", "json"} :
         case = [part |-> "hdr", hdrs |-> <<h>>, extra |-> FALSE, decl |-> d, ct |-> Json, req |-> "qw", ctText |-> Render(Json),
                 body |-> O(<<"q">>, <<Num(4)>>), excludeBody |-> FALSE, excludeWO |-> FALSE, multi |-> FALSE]
